@@ -148,6 +148,32 @@ Definition check_attach (v : tval) : bool :=
   let s := attach_model v in
   nat_list_eqb (map (fun c => cnt c (b_closedlog (fst s))) (seq 0 (length (b_attached (fst s))))) (map vnat (vl (vnth 3 v))).
 
+(* ---- kind 10: closer A parked inside the stream Close of a session connection while k more closers run ---- *)
+(* [10; remove_first; a_kind (0 CloseConnection, 1 manager Close); others [kinds]; obs stream closes] *)
+Definition ipc_of (k : bool) : ipc := if k then IMgrClose else ILookup.
+Definition overlap_model (v : tval) : ish * list ipc :=
+  let others := map (fun x => ipc_of (vbool x)) (vl (vnth 3 v)) in
+  let n := length others in
+  (* A looks the entry up (and, manager: does everything); the others run to completion; A finishes *)
+  run _ _ (istep (vbool (vnth 1 v))) (iinit, ipc_of (vbool (vnth 2 v)) :: others)
+      ([0] ++ flat_map (fun i => [i; i; i]) (seq 1 n) ++ [0; 0; 0]).
+Definition check_overlap (v : tval) : bool :=
+  let s := overlap_model v in Nat.eqb (i_released (fst s)) (vnat (vnth 4 v)) && forallb i_done (snd s).
+
+(* ---- kind 11: sequential ResourceManager history ---- *)
+(* [11; ops [[kind; id; fail]]; obs dispose log; obs results (0 ok / 1 refused / error count of a DisposeAll)] *)
+Definition dec_rmop (x : tval) : rmop :=
+  match vnat (vnth 0 x) with 0 => RmRegister (vnat (vnth 1 x)) (vbool (vnth 2 x)) | 1 => RmUnregister (vnat (vnth 1 x)) | _ => RmDisposeAll end.
+Definition check_resmgr (v : tval) : bool :=
+  let s := rm_run (map dec_rmop (vl (vnth 1 v))) in
+  nat_list_eqb (rm_log s) (map vnat (vl (vnth 2 v))) && nat_list_eqb (rm_results s) (map vnat (vl (vnth 3 v))).
+
+(* ---- kind 12: DisposeWithTimeout on the timeout path: is the helper gone after the slow resource finished? ---- *)
+(* [12; buffered; obs_helper_left] *)
+Definition check_timeout (v : tval) : bool :=
+  let s := run _ _ (tstep2 (vbool (vnth 1 v))) (tinit2, [HRun; CSelect true; TFire; GOpen]) [2; 1; 3; 0; 0; 0] in
+  Bool.eqb (match nth_error (snd s) 0 with Some HDone => false | _ => true end) (vbool (vnth 2 v)).
+
 Definition check (v : tval) : bool :=
   match vnat (vnth 0 v) with
   | 0 => check_dispose v
@@ -160,6 +186,9 @@ Definition check (v : tval) : bool :=
   | 7 => check_queue v
   | 8 => check_body v
   | 9 => check_attach v
+  | 10 => check_overlap v
+  | 11 => check_resmgr v
+  | 12 => check_timeout v
   | _ => false
   end.
 
@@ -180,5 +209,7 @@ Definition predict (v : tval) : tval :=
   | 6 => vnats [if forallb (fun t => negb (f_close_pending t)) (snd (stall_model v)) then 1 else 0]
   | 7 => let s := queue_model v in vnats [q_late (fst s); match nth_error (snd s) 1 with Some (QRet false) => 1 | _ => 0 end]
   | 9 => let s := attach_model v in vnats (map (fun c => cnt c (b_closedlog (fst s))) (seq 0 (length (b_attached (fst s)))))
+  | 10 => vnats [i_released (fst (overlap_model v))]
+  | 11 => let s := rm_run (map dec_rmop (vl (vnth 1 v))) in VL [vnats (rm_log s); vnats (rm_results s)]
   | _ => VL []
   end.
